@@ -3862,6 +3862,11 @@ static void print_error_context_line(int line, int column, int caret_len, const 
     fprintf(stderr, "%s\n", CEND);
 }
 
+/* Number of error diagnostics emitted through emit_context_error().
+ * Expression-level checks have no TypeChecker to set has_error on, so
+ * type_check() / type_check_module() compare this counter before and after. */
+static int g_context_error_count = 0;
+
 static void emit_context_error(
     const char *title,
     int line,
@@ -3870,6 +3875,9 @@ static void emit_context_error(
     const char *message,
     const char *hint
 ) {
+    if (!strstr(title, "WARNING") && !strstr(title, "Warning")) {
+        g_context_error_count++;
+    }
     if (g_typecheck_current_file) {
         print_error_header(title, g_typecheck_current_file);
     } else {
@@ -4794,6 +4802,8 @@ bool type_check(ASTNode *program, Environment *env) {
         return false;
     }
 
+    int context_errors_before = g_context_error_count;
+
     TypeChecker tc;
     tc.env = env;
     tc.has_error = false;
@@ -5603,6 +5613,10 @@ sdef.is_pub = item->as.struct_def.is_pub;            /* Propagate public visibil
         tc.has_error = true;
     }
 
+    if (g_context_error_count > context_errors_before) {
+        /* A diagnostic was reported from inside an expression: the program is ill-formed */
+        tc.has_error = true;
+    }
     return !tc.has_error;
 }
 
@@ -5612,6 +5626,8 @@ bool type_check_module(ASTNode *program, Environment *env) {
         fprintf(stderr, "Error: Invalid program AST\n");
         return false;
     }
+
+    int context_errors_before = g_context_error_count;
 
     TypeChecker tc;
     tc.env = env;
@@ -6262,5 +6278,9 @@ sdef.is_pub = item->as.struct_def.is_pub;            /* Propagate public visibil
     /* Note: Modules don't require a main function */
     /* Main function check is skipped for modules */
 
+    if (g_context_error_count > context_errors_before) {
+        /* A diagnostic was reported from inside an expression: the program is ill-formed */
+        tc.has_error = true;
+    }
     return !tc.has_error;
 }
